@@ -223,10 +223,10 @@ func genC20(ctx *Ctx) {
 					h := c20Host(ctx)
 					ops = append(ops, sx.L(sx.I(6), sx.N(1), h.enc, sx.N(h.kind), sx.I(0)))
 				}
-				ops = append(ops, sx.L(sx.I(1), sx.N(0), sx.N(0), sx.N(0)))       // v0 = from list 0
-				ops = append(ops, sx.L(sx.I(2), sx.N(1), sx.N(0), sx.N(3)))       // v1.Assign(v0)
-				ops = append(ops, sx.L(sx.I(1), sx.N(1), sx.N(1), sx.N(fl)))      // v1 = / set to list 1
-				ops = append(ops, sx.L(sx.I(2), sx.N(2), sx.N(0), sx.N(0)))       // v2 = v0.Clone()
+				ops = append(ops, sx.L(sx.I(1), sx.N(0), sx.N(0), sx.N(0)))  // v0 = from list 0
+				ops = append(ops, sx.L(sx.I(2), sx.N(1), sx.N(0), sx.N(3)))  // v1.Assign(v0)
+				ops = append(ops, sx.L(sx.I(1), sx.N(1), sx.N(1), sx.N(fl))) // v1 = / set to list 1
+				ops = append(ops, sx.L(sx.I(2), sx.N(2), sx.N(0), sx.N(0)))  // v2 = v0.Clone()
 				ctx.Count("assign-then-set-to-list")
 				ctx.Input(ops, true)
 			}
